@@ -31,6 +31,7 @@ import (
 	_ "verif/quiet"
 	"verif/rep"
 	"verif/shim/vrand"
+	"verif/shim/vsync"
 	"verif/vrt"
 )
 
@@ -47,12 +48,16 @@ var (
 // used because it sleeps 1 ms of wall time per call.
 type vclock struct {
 	clock.Clock
-	mu  sync.Mutex
-	now time.Time
+	mu     sync.Mutex
+	now    time.Time
+	points bool // E1: every read of the clock is a scheduling point
 }
 
 func newClock() *vclock { return &vclock{Clock: clock.NewMock(), now: t0} }
 func (c *vclock) Now() time.Time {
+	if c.points {
+		vrt.Point("clock.Now")
+	}
 	c.mu.Lock()
 	defer c.mu.Unlock()
 	return c.now
@@ -482,10 +487,20 @@ type call struct {
 
 func zeroDecider(n int, label string) int { return 0 }
 
-func harness(sc scenario) *vrt.Harness {
-	return &vrt.Harness{Name: sc.name, Horizon: 20000, Body: func() (string, string) {
+// harness builds the E1 harness of a scenario. unlockPts: Unlock/RUnlock are
+// scheduling points too (otherwise only the acquiring operations are: a
+// release commutes to the left of every step another thread can take while the
+// lock is held, so no behaviour is lost -- Lipton reduction).
+func harness(sc scenario, unlockPts bool) *vrt.Harness {
+	name := sc.name + "/acquire-points"
+	if unlockPts {
+		name = sc.name + "/all-lock-points"
+	}
+	return &vrt.Harness{Name: name, Horizon: 20000, Body: func() (string, string) {
 		vrand.Decider = zeroDecider
+		vsync.UnlockPoints = unlockPts
 		clk := newClock()
+		_, clk.points = sc.threads["tick"]
 		st := peerstore.VerifNewLocalStore(peerstore.LocalConfig{TTL: ttl}, clk)
 		h := hashOf(0)
 		ev := 0
@@ -508,7 +523,9 @@ func harness(sc scenario) *vrt.Harness {
 				}
 				c.res = res
 			case "adv":
-				vrt.Point("tick")
+				if th != "pre" {
+					vrt.Point("tick")
+				}
 				clk.Add(time.Duration(s.n) * unit)
 			case "ce":
 				st.VerifCleanupExpiredPeerEntries()
@@ -629,7 +646,7 @@ func sortedPeers(ps []*core.PeerInfo) []*core.PeerInfo {
 func main() {
 	var hs []*vrt.Harness
 	for _, sc := range scenarios(true) {
-		hs = append(hs, harness(sc))
+		hs = append(hs, harness(sc, true), harness(sc, false))
 	}
 	vrt.WorkerMain(hs)
 
@@ -676,43 +693,52 @@ func main() {
 	}
 
 	// ---- E1
-	bound := 2
+	type phase struct {
+		unlockPts bool
+		bound     int
+	}
+	phases := []phase{{true, 2}}
 	maxDur := 25
 	if run.Thorough() {
-		bound = 3
-		maxDur = 300
+		phases = []phase{{true, 2}, {false, 3}}
+		maxDur = 240
 	}
 	var e1exec, e1overlap int64
 	for _, sc := range scenarios(run.Thorough()) {
-		sc := sc
-		h := harness(sc)
-		_, o1, _ := vrt.Replay(h, nil)
-		_, o2, _ := vrt.Replay(h, nil)
-		if o1 != o2 {
-			run.Fatal(errors.New("non-deterministic replay in " + sc.name + ": " + o1 + " vs " + o2))
+		phs := phases
+		if run.Thorough() && len(sc.order) <= 2 {
+			phs = append(append([]phase{}, phases...), phase{true, 3})
 		}
-		res := rep.VRT(run, h, bound, evid.Workers(), maxDur, func(v vrt.Violation) string {
-			m := strings.SplitN(v.Msg, "\n", 2)[0]
-			m = strings.TrimSpace(strings.SplitN(m, "|", 2)[0])
-			if len(m) > 120 {
-				m = m[:120]
+		for _, ph := range phs {
+			sc := sc
+			h := harness(sc, ph.unlockPts)
+			_, o1, _ := vrt.Replay(h, nil)
+			_, o2, _ := vrt.Replay(h, nil)
+			if o1 != o2 {
+				run.Fatal(errors.New("non-deterministic replay in " + sc.name + ": " + o1 + " vs " + o2))
 			}
-			return "E1 " + sc.name + ": " + m
-		})
-		e1exec += int64(res.Executions)
-		ov := 0
-		for k, n := range res.Outcomes {
-			if strings.HasPrefix(k, "ovl=true") {
-				ov += n
+			res := rep.VRT(run, h, ph.bound, evid.Workers(), maxDur, func(v vrt.Violation) string {
+				m := strings.SplitN(v.Msg, "\n", 2)[0]
+				m = strings.TrimSpace(strings.SplitN(m, "|", 2)[0])
+				if len(m) > 120 {
+					m = m[:120]
+				}
+				return "E1 " + sc.name + ": " + m
+			})
+			e1exec += int64(res.Executions)
+			ov := 0
+			for k, n := range res.Outcomes {
+				if strings.HasPrefix(k, "ovl=true") {
+					ov += n
+				}
 			}
-		}
-		e1overlap += int64(ov)
-		if ov == 0 {
-			run.Fatal(errors.New("vacuous E1 scenario " + sc.name + ": no execution had an announce overlapping a cleanup pass"))
+			e1overlap += int64(ov)
+			if ov == 0 {
+				run.Fatal(errors.New("vacuous E1 scenario " + sc.name + ": no execution had an announce overlapping a cleanup pass"))
+			}
 		}
 	}
 	run.Set("e1_executions", e1exec)
 	run.Set("e1_executions_with_announce_overlapping_cleanup", e1overlap)
-	run.Set("e1_preemption_bound", bound)
 	run.Finish()
 }
